@@ -15,13 +15,17 @@ CHECKS = {
             "Seeded search over request/reply/bind/back-pressure schedules of the production request/reply router (real Topic::poll, Router, StreamMap) with forged and ill-formed routing tags; every request reaches the replier at most once, in order, tagged unforgeably; every well-tagged reply reaches exactly its requestor once, intact; ill-tagged replies reach nobody. Sampling, not proof.",
             "Trusts the mock sink/stream model; bounds: <=4 requestors, 1 replier (re-binding is C10), <=30 requests per run.",
             "DESIGN.md §5 C02"),
+    "C03": ("exploration", "N", "deterministic simulation: real Publisher/Subscriber + server + QUIC over a simulated network and virtual clock, configuration swarm",
+            "Whole-stack runs (real client library, real server, real quinn/rustls over SimNet, paused clock) with a configuration swarm per run: codec x compression algorithm/level x batching (size, interval) x send pattern (send, feed+flush, feed then finish only, send_all) x virtual gaps x message counts around the batch size x payload classes, under mild loss/duplication/reordering. Every subscriber registered before the first send must yield exactly the accepted items in order; finish() returning Ok obliges delivery of everything accepted, including a partial batch.",
+            "Runs with a lost connection are inconclusive; registration counts as effective 1 virtual second after open(); batches that would exceed the frame limit are not generated.",
+            "DESIGN.md §5 C03"),
     "C05": ("exploration", "W", "deterministic simulation: real MessageCodec under FramedRead/FramedWrite over a scripted byte pipe (short writes, pending, seeded chunking)",
             "Frame sequences of all eight kinds cross a simulated byte pipe whose every write and read outcome is scripted (short writes, Pending, 1-byte chunks, cuts inside the length prefix, several frames per chunk); the decoded sequence must equal the written one, all bytes must be consumed, each prefix must equal a payload length computed independently from bincode's layout, oversize payloads/prefixes must be refused (the latter as soon as the 9 header bytes are in, with no payload buffered), batches must unbatch to the same messages.",
             "Sampling over frames/chunkings, not proof; payload sizes near 1 MiB are rare (1-2 % of runs).",
             "DESIGN.md §5 C05"),
-    "C06": ("exploration", "W", "deterministic simulation with fault injection: seeded corruption of valid encodings fed to every decoder through the scripted pipe, panic and allocation guards",
-            "Valid encodings (frame streams, batch bodies, codec payloads, compressed payloads, a publisher's compress(batch(encode)) output) are corrupted by seeded faults (bit flips, truncation, insertion/deletion, duplicated chunks, adversarial length fields up to 2^64-1, random bytes) and decoded under seeded chunking; a panic, an allocation request beyond 256 MiB + 16 x input, a worker abort or a hang is a violation; uncorrupted inputs must still decode. The real Subscriber/Requestor/Replier decode paths over the simulated network are not covered yet (N part).",
-            "W part only; third-party decompressors are exercised as black boxes through selium-std's wrappers.",
+    "C06": ("exploration", "W+N", "deterministic simulation with fault injection: seeded corruption of valid encodings fed to every decoder through the scripted pipe, panic and allocation guards",
+            "Valid encodings (frame streams, batch bodies, codec payloads, compressed payloads, a publisher's compress(batch(encode)) output) are corrupted by seeded faults (bit flips, truncation, insertion/deletion, duplicated chunks, adversarial length fields up to 2^64-1, random bytes) and decoded under seeded chunking; a panic, an allocation request beyond 256 MiB + 16 x input, a worker abort or a hang is a violation; uncorrupted inputs must still decode. N part: a raw peer sends the same kinds of crafted payloads to a real library Subscriber, Requestor and Replier and raw garbage to the real server; no task may panic, the consumer must reach the sentinel/answer, and the server must still serve a clean round trip.",
+            "Third-party decompressors are exercised as black boxes through selium-std's wrappers; N part runs few hundred scenarios per quick run.",
             "DESIGN.md §5 C06"),
     "C08": ("fault_enumeration", "R", "deterministic simulation with fault injection: complete list of peer-failure placements, each under seeded schedules",
             "Every point of a listed space of fault placements (failing peer position x sink operation x message index; failing/ending stream x index; bound replier sink failing, then a fresh replier) is executed against the real routers under seeded ready/pending schedules of the healthy peers, plus random one- and two-peer failures; healthy peers must satisfy the C01/C02 models, the router must not panic, a failed replier must be replaceable.",
@@ -39,6 +43,10 @@ CHECKS = {
             "Requestors and repliers additionally send every other frame kind mid-stream (Ok, BatchMessage, Error, Register*, frame-limit requests); the router must not panic or spin and every non-hostile peer's traffic must still satisfy the C02 model. The stream-open half of the property (Ok/Error answer, role mismatch) needs the N-engine and is not covered yet.",
             "R part only: frames arrive decoded; first-frame handling in server.rs is not exercised by this check yet.",
             "DESIGN.md §5 C11"),
+    "C14": ("exploration", "N", "deterministic simulation: transform configurations exercised as traffic through the simulated system, plus raw-peer injection of invalid payloads",
+            "8-24 publisher/subscriber stream pairs per run, each with its own codec and compression algorithm/mode/level (every explicit level of the supported ranges is drawn) and payloads from the classes empty / 1 byte / incompressible / repetitive / structured / (thorough) near the frame limit, with and without batching, so the wire composition encode -> batch -> compress -> decompress -> unbatch -> decode runs; every received value must equal the sent one in order. A raw publisher injects payloads that are invalid for the subscriber's codec (invalid UTF-8, truncated bincode): they must surface as Err, valid ones as the value.",
+            "Pure at the function level; decided as traffic (DESIGN.md §0). 1 MiB payloads only in the thorough tier.",
+            "DESIGN.md §5 C14"),
     "C16": ("exploration", "R", "deterministic simulation: registration channel closed at a seeded step of pub/sub and request/reply router schedules",
             "The sender returned by Topic::pair() is closed or dropped at an arbitrary step (idle, item buffered, flush pending, one side only, rejection in progress); once every sink accepts data the router future must complete within the poll budget and (pub/sub) every accepted item must be handed over and flushed first.",
             "close_channel on the pair() sender is what Server::shutdown does; N-engine smoke of Server::verif_shutdown not built yet.",
